@@ -13,7 +13,7 @@ class C07(Prop):
             "a step; 45% of histories split the integration AT a root (integrate(root); integrate()).  Non-trivial = at least one event was reported")
     assumptions = ["closed-form roots exist for harmonic components and pure time events only; other problems get distance-based uniqueness only",
                    "residual '~0' is read as rounding level relative to the scale of g, or 16 eps in absolute terms",
-                   "root-location bound 10*(E + O(h^4) interpolation error)/|slope| with E the run's own measured global error",
+                   "root-location bound 30*(E + O(h^4) interpolation error)/|slope| with E the run's own measured global error",
                    "crossing sense is read off the computed trajectory of the containing step, along the direction of integration (library/scipy convention)"]
 
     def monitors(self, scn):
